@@ -181,6 +181,47 @@ Theorem C02_typed_if_data_parser_moves_forward_only : forall f ty c, c_fileid c 
 Proof. intros f ty c Hc Hd. exact (IT.moves_parse_ifdata_item f ty c Hc Hd). Qed.
 Print Assumptions C02_typed_if_data_parser_moves_forward_only.
 
+(* the whole IF_DATA content under the applicable definitions, tried in order (parse_ifdata: built-in definition first, then the one
+   of the file's A2ML block; a definition that does not fit is abandoned and the cursor put back): when the block comes out VALID
+   (the [true]) from a run that reports nothing, the tokens between the IF_DATA tag and /end are, one by one, the tokens the writer
+   prints for the items of the block *)
+Theorem C02_valid_if_data_block_is_written_as_it_was_read : forall ftab specs fuel c, c_fileid c = O ->
+  forall s gb s', Inv s -> ps_ftab s = ftab -> parse_ifdata specs fuel c s = (ROk (Some gb, true), s') -> ps_log s' = ps_log s ->
+  exists ts, adv ts s s' /\ Forall2 (reads_as ftab) ts (IF.ftoks ftab gb).
+Proof. intros ftab specs fuel c Hc. exact (IT.valid_ifdata_is_written_as_it_was_read ftab specs fuel c Hc). Qed.
+Print Assumptions C02_valid_if_data_block_is_written_as_it_was_read.
+
+(* IF_DATA that no definition describes passes through: a successful run of the uninterpreted reader (parse_unknown_ifdata_start:
+   leading tag, scalars, nested /begin .. /end blocks to any depth) that reports nothing has consumed exactly the tokens the writer
+   prints for the value it keeps.  [reads_as] for a number: "the canonical text of the value it was read as" - an i32 if it is one, else
+   an f32 if that is finite, else an f64; what the f32 cannot hold exactly is the known finding unknown-ifdata-number-precision, and
+   the theorem is what remains true there: no token is lost, invented or moved. *)
+From A2L Require Proofs.IfdataUnknownTraceProofs.
+Module IU := A2L.Proofs.IfdataUnknownTraceProofs.
+Theorem C02_uninterpreted_if_data_is_written_as_it_was_read : forall ftab fuel c, c_fileid c = O ->
+  forall s g s', Inv s -> ps_ftab s = ftab -> unknown_ifdata_start fuel c s = (ROk g, s') -> ps_log s' = ps_log s ->
+  exists ts, adv ts s s' /\ Forall2 (reads_as ftab) ts (IF.ftoks ftab g).
+Proof. intros ftab fuel c Hc. exact (IU.unknown_ifdata_start_is_written_as_it_was_read ftab fuel c Hc). Qed.
+Print Assumptions C02_uninterpreted_if_data_is_written_as_it_was_read.
+
+(* both together: whatever parse_ifdata returns as the content of an IF_DATA block - interpreted (valid) or kept uninterpreted - from a
+   run that reports nothing, the tokens between the IF_DATA tag and /end are the tokens the writer prints for it *)
+Theorem C02_if_data_content_is_written_as_it_was_read : forall ftab specs fuel c, c_fileid c = O ->
+  forall s g v s', Inv s -> ps_ftab s = ftab -> parse_ifdata specs fuel c s = (ROk (Some g, v), s') -> ps_log s' = ps_log s ->
+  exists ts, adv ts s s' /\ Forall2 (reads_as ftab) ts (IF.ftoks ftab g).
+Proof. intros ftab specs fuel c Hc. exact (IU.ifdata_content_is_written_as_it_was_read ftab specs fuel c Hc). Qed.
+Print Assumptions C02_if_data_content_is_written_as_it_was_read.
+
+(* ... and the IF_DATA element as the block parser meets it (IfData::parse, behind "/begin IF_DATA"): a run that reports nothing and
+   returns a block with content has consumed the tokens of that content, /end and IF_DATA - the element is written as it was read *)
+Theorem C02_if_data_block_is_written_as_it_was_read : forall ftab rec ifuel td newc lo, t_special td = Some "IfData"%string -> c_fileid newc = O ->
+  forall s lay g v s', Inv s -> ps_ftab s = ftab ->
+  parse_special_or_generic rec ifuel td newc lo s = (ROk (VIfData lay (Some g) v), s') -> ps_log s' = ps_log s ->
+  exists ts tE tI, adv (ts ++ [tE; tI]) s s' /\ Forall2 (reads_as ftab) ts (IF.ftoks ftab g) /\ tk_type tE = TEnd /\
+                   shape_of tI = (TIdentifier, bytes_of "IF_DATA").
+Proof. intros ftab rec ifuel td newc lo Hsp Hc. exact (IU.ifdata_block_is_written_as_it_was_read ftab rec ifuel td newc lo Hsp Hc). Qed.
+Print Assumptions C02_if_data_block_is_written_as_it_was_read.
+
 (* the premises are met: a clean successful run on the tokens of a block with a keyword item, two blocks of one tag and sequences *)
 Definition demo_if_spec : a2mlty :=
   TStruct [TUInt; TTaggedStruct [Tagged (bytes_of "A") false false TULong;
@@ -203,4 +244,23 @@ Example C02_typed_if_data_clean_run :
               [(TNumber, bytes_of "5"); (TBegin, begin_text); (TIdentifier, bytes_of "BLK"); (TNumber, bytes_of "9"); (TNumber, bytes_of "1");
                (TNumber, bytes_of "0x2"); (TEnd, end_text); (TIdentifier, bytes_of "BLK"); (TIdentifier, bytes_of "A"); (TNumber, bytes_of "7");
                (TBegin, begin_text); (TIdentifier, bytes_of "BLK"); (TNumber, bytes_of "8"); (TEnd, end_text); (TIdentifier, bytes_of "BLK")]).
+Proof. vm_compute. reflexivity. Qed.
+
+(* ... and on uninterpreted content with a leading tag, numbers (integer, hex, float), a string and nested blocks *)
+Definition demo_unknown_shapes : list shape :=
+  [(TIdentifier, bytes_of "VENDOR"); (TNumber, bytes_of "1"); (TNumber, bytes_of "0x10"); (TNumber, bytes_of "0.5"); (TString, bytes_of """s""");
+   (TBegin, begin_text); (TIdentifier, bytes_of "SEG"); (TNumber, bytes_of "7"); (TIdentifier, bytes_of "x");
+   (TBegin, begin_text); (TIdentifier, bytes_of "IN"); (TNumber, bytes_of "3"); (TEnd, end_text); (TIdentifier, bytes_of "IN");
+   (TEnd, end_text); (TIdentifier, bytes_of "SEG"); (TIdentifier, bytes_of "k")].
+Example C02_uninterpreted_if_data_clean_run :
+  match tokenize_core 0 (bytes_of "VENDOR 1 0x10 0.5 ""s"" /begin SEG 7 x /begin IN 3 /end IN /end SEG k /end IF_DATA") with
+  | TOk toks =>
+      let s := init_state toks false 1 demo_ftab in
+      match unknown_ifdata_start 50 (mkCtx (bytes_of "IF_DATA") O 1) s with
+      | (ROk g, s') => Some (match ps_log s' with [] => true | _ => false end, length (ps_after s'),
+                             map shape_of (firstn (length toks - 2) toks), IF.ftoks demo_ftab g)
+      | _ => None
+      end
+  | _ => None
+  end = Some (true, 2%nat, demo_unknown_shapes, demo_unknown_shapes).
 Proof. vm_compute. reflexivity. Qed.
